@@ -58,6 +58,8 @@ ASSUMPTIONS = [
     "against re-entrancy) runs to completion inside a seam render A calls between two of its strips "
     "(module-level standard_b64encode / compress of the style module); renders are independent: A's and "
     "B's command streams are each judged by the same clauses against their own references",
+    "jpeg_quality: every value below 0 disables JPEG encoding (documented: 'value < 0; JPEG encoding is "
+    "disabled'); values are set on the instance or class-wide (unset again after each case)",
     "payload length 0 cannot occur in a real render (sizes are >= 1 px): it is covered by the "
     "spec -> code replay of get_chunks only",
 ]
@@ -230,7 +232,10 @@ def open_image(case):
         image.seek(int(kind.split(":")[2]))
     if case["style"] == "iterm2":
         if case.get("jpeg") is not None:
-            image.jpeg_quality = case["jpeg"]
+            if case.get("jpeg_level") == "class":
+                cls.jpeg_quality = case["jpeg"]  # class-wide; unset again by reset_class_settings()
+            else:
+                image.jpeg_quality = case["jpeg"]
         if case.get("rff") is not None:
             image.read_from_file = case["rff"]
     return image, ref, animated
@@ -303,6 +308,7 @@ def render_on(image, case, ref, animated, via=None, text=None):
         modeclass=proj.mode_class(ref.mode),
         alphakind=alpha_kind(alpha),
         srckind=kind.split(":")[0],
+        jpeg_level=case.get("jpeg_level", "instance") if case.get("jpeg") is not None else "unset",
         termbg=str(case["fg_bg"][1]),
         unstable=bool(cells2),
         cw2=cell2[0],
@@ -318,8 +324,23 @@ _KEEP = (
 ).split()
 
 
+def reset_class_settings():
+    from term_image.image import ITerm2Image
+
+    del ITerm2Image.jpeg_quality  # tolerant deleter: back to "unset" (disabled)
+    del ITerm2Image.read_from_file
+
+
 def traces_of(case):
     """All traces of a case: one for a plain case, one per render for a multi-render history."""
+    reset_class_settings()
+    try:
+        return _traces_of(case)
+    finally:
+        reset_class_settings()
+
+
+def _traces_of(case):
     if "history" in case:
         return history_traces(case)
     if "inner" in case:
@@ -601,7 +622,8 @@ def grid_cases(rng, reps):
                 if rng.random() < 0.25:
                     c["args"]["blend"] = rng.choice([True, False])
             else:
-                c["jpeg"] = rng.choice([None, None, -1, 0, 50, 95])
+                c["jpeg"] = rng.choice([None, None, -1, -2, -50, 0, 50, 95])
+                c["jpeg_level"] = rng.choice(["instance", "instance", "class"])
                 c["rff"] = rng.choice([None, None, True, False])
             c["via"] = pick_via(rng, c)
             yield c
@@ -616,7 +638,7 @@ def gate_cases(rng, tier):
                     continue
                 for alpha in (None, 0.4, "#", "#a0b0c0"):
                     for small in (True, False):
-                        for jpeg in ((None, 0, 50, 95) if tier == "thorough" else (rng.choice([None, None, 0, 50, 95]),)):
+                        for jpeg in ((None, -50, -2, -1, 0, 50, 95) if tier == "thorough" else (rng.choice([None, -50, -2, -1, 0, 50, 95]),)):
                             for method in (("whole", "anim", "lines") if tier == "thorough" else ("whole", rng.choice(["whole", "anim", "lines"]))):
                                 cell = rng.choice(CELLS)
                                 rw, rh = rng.randrange(1, 6), rng.randrange(1, 5)
@@ -664,7 +686,7 @@ def unstable_cases(rng, tier):
                 if rng.random() < 0.6:
                     c["args"]["compress"] = rng.randrange(0, 10)
                 if style == "iterm2":
-                    c["jpeg"] = rng.choice([None, None, None, 50])
+                    c["jpeg"] = rng.choice([None, None, -2, 50])
                     c["rff"] = rng.choice([None, True, False])
                 c["via"] = pick_via(rng, c)
                 yield c
@@ -695,7 +717,7 @@ def history_cases(rng, tier):
                     if rng.random() < 0.5:
                         c["args"]["compress"] = rng.randrange(0, 10)
                     if style == "iterm2":
-                        c["jpeg"] = rng.choice([None, None, 50])
+                        c["jpeg"] = rng.choice([None, -50, -1, 50])
                         c["rff"] = rng.choice([None, True, False])
                     c["via"] = rng.choice(["format", "renderer"])
                     c["history"] = hist
@@ -726,7 +748,7 @@ def interleaved_cases(rng, tier):
                                   srckind=rng.choice(["pil", "pilfile", "file"]))
                     c["args"]["compress"] = rng.randrange(0, 10)
                     if style == "iterm2":
-                        c["jpeg"] = rng.choice([None, None, 50])
+                        c["jpeg"] = rng.choice([None, -50, -1, 50])
                         c["rff"] = rng.choice([None, True, False])
                     c["via"] = rng.choice(["format", "renderer"])
                     return c
@@ -761,13 +783,40 @@ def termbg_cases(rng, tier):
                     if rng.random() < 0.5:
                         c["args"]["compress"] = rng.randrange(0, 10)
                     if style == "iterm2":
-                        c["jpeg"] = rng.choice([None, None, None, 50])
+                        c["jpeg"] = rng.choice([None, None, -2, 50])
                         c["rff"] = rng.choice([None, True, False])
                     c["via"] = rng.choice(["format", "renderer"])
                     yield c
 
 
+JPEG_VALUES = [None, -50, -2, -1, 0, 50, 95]
+
+
+def jpeg_cases(rng, tier):
+    """jpeg_quality: EVERY value below 0 disables JPEG (PNG, pixels exact); 0..95 enable it for
+    opaque re-encoded renders.  Set on the instance and class-wide; renders that are re-encoded
+    (read_from_file off) and opaque (no alpha / background colour / opaque source)."""
+    reps = 1 if tier == "quick" else 8
+    for _ in range(reps):
+        for jpeg in JPEG_VALUES:
+            for level in ("instance", "class"):
+                for method in ("lines", None, "whole", "anim"):
+                    for alpha, mode in ((None, rng.choice(["RGBA", "LA", "P"])), ("#", "RGBA"),
+                                        (rng.choice([0.4, "#102030"]), rng.choice(["RGB", "L", "CMYK", "1"]))):
+                        c = base_case(rng, "iterm2", method=method, alpha=alpha, mode=mode,
+                                      srckind=rng.choice(["pil", "pilfile", "file"]), cell=rng.choice(CELLS),
+                                      size=[rng.randrange(1, 5), rng.randrange(1, 4)],
+                                      src=rng.choice([[3, 5], [16, 9], [40, 40], [97, 61]]),
+                                      pixstyle=rng.choice(["mixed", "noise"]), jpeg=jpeg, rff=False)
+                        c["jpeg_level"] = level
+                        if rng.random() < 0.4:
+                            c["args"]["compress"] = rng.randrange(0, 10)
+                        c["via"] = rng.choice(["format", "renderer"])
+                        yield c
+
+
 def gen_cases(rng, tier):
+    yield from jpeg_cases(rng, tier)
     yield from termbg_cases(rng, tier)
     yield from interleaved_cases(rng, tier)
     yield from history_cases(rng, tier)
@@ -1037,6 +1086,7 @@ def main(rep: Report, replay: dict | None) -> None:
     histories: dict[str, int] = {}
     interleaved: dict[str, int] = {}
     termbg: dict[str, int] = {}
+    jpegs: dict[str, int] = {}
     rejected = 0
     block = 4000
     for b0 in range(0, len(cases), block):
@@ -1109,6 +1159,10 @@ def main(rep: Report, replay: dict | None) -> None:
         for key, n in classify_boundaries(traces).items():
             bc[key] = bc.get(key, 0) + n
         for tr in traces:
+            if tr["hdr"]["style"] == "iterm2" and tr["ev"] and not tr["ev"][0]["isfile"]:
+                key = f"jpeg={tr['hdr']['jpeg']}:{tr['hdr']['jpeg_level']}:{tr['ev'][0]['kind']}"
+                jpegs[key] = jpegs.get(key, 0) + 1
+        for tr in traces:
             if tr["hdr"]["alphakind"] == "bgterm" and tr["hdr"]["modeclass"] != "opaque":
                 termbg[tr["hdr"]["termbg"]] = termbg.get(tr["hdr"]["termbg"], 0) + 1
         for tr in traces:
@@ -1137,6 +1191,12 @@ def main(rep: Report, replay: dict | None) -> None:
     rep.extra["renders"] = len(cases)
     rep.extra["Trace_Gfx_actions"] = actions
     rep.extra["unstable_cell_size_renders"] = unstable
+    rep.extra["iterm2_reencoded_renders_by_jpeg_quality"] = jpegs
+    if not replay and not rep.violations:
+        for v in (-50, -2, -1):
+            for level in ("instance", "class"):
+                if not jpegs.get(f"jpeg={v}:{level}:png"):
+                    raise tlc.MachineryError(f"jpeg_quality {v} ({level}) never re-encoded a render: {jpegs}")
     rep.extra["alpha_hash_renders_by_terminal_background"] = termbg
     if not replay and not rep.violations and any(
         not termbg.get(str(bg)) for bg in TERM_BGS
